@@ -266,6 +266,24 @@ def check(ctx, which, classes, an, dxs, wit):
             if val not in exp["string"] and s.get_xref_from():
                 viol("string-xref-extra", "a string that no instruction loads has cross-references", {"string": val})
         dc = dontcare_class_sites(classes)
+        # const-class on an ARRAY of a class: whether it is recorded on the element class is not fixed by the property (androguard documents that it
+        # strips '['), but whatever is done must not depend on the number of dimensions
+        arr = {}
+        for c in classes:
+            for m in c.methods:
+                for off, kind, opname, tgt in m.sites:
+                    if kind == "const-class" and tgt.startswith("[") and tgt.lstrip("[").startswith("L") and tgt.lstrip("[") != c.name:
+                        arr.setdefault(tgt.lstrip("["), []).append((m.key, off, len(tgt) - len(tgt.lstrip("["))))
+        for base, sites in arr.items():
+            ca = an.get_class_analysis(base)
+            listed = {(mkey_of(ma), off) for (ma, off) in ca.get_xref_const_class()} if ca is not None else set()
+            rec = {1: [], 2: []}
+            for mk, off, dims in sites:
+                rec[1 if dims == 1 else 2].append((mk, off) in listed)
+            if rec[1] and rec[2] and (all(rec[1]) != all(rec[2]) or any(rec[1]) != any(rec[2])):
+                viol("const-class-array-dimension-inconsistency", "const-class on a one-dimensional array of a class is treated differently from a multi-dimensional one",
+                     {"class": base, "one_dim_recorded": rec[1], "multi_dim_recorded": rec[2]})
+            ctx.count("array_const_class_groups")
         for kind, cget, mget in (("new_instance", "get_xref_new_instance", "get_xref_new_instance"), ("const_class", "get_xref_const_class", "get_xref_const_class")):
             targets = set(exp[kind]) | exp["class_names"] | {"Lext/E;", "Lext/Other;", "Ljava/lang/String;"}
             for cn in sorted(targets):
